@@ -68,6 +68,10 @@ func (e Env) Pick(q, t int) int {
 	if e.Thorough() {
 		n = t
 	}
+	// development aid only (never set by a registered command): percentage of the case count
+	if ds, err := strconv.Atoi(os.Getenv("VERIF_DEVSCALE")); err == nil && ds > 0 {
+		n = n * ds / 100
+	}
 	n = (n + e.Shards - 1) / e.Shards
 	if n < 1 {
 		n = 1
